@@ -20,12 +20,19 @@ TInit == l = 2 /\ InitWith(Rec[1].cfg)
 T_Tick == /\ IsEv("tick")
           /\ Tick(Rec[l].d)
 
+(* q.route says how the recorder built the request; the flags are what the *)
+(* specification says that route composes to (the flags the recorder      *)
+(* logged are not read).  fwd: the request upstream found on the wire.    *)
 T_Query == /\ IsEv("query")
            /\ LET e == Rec[l] IN
               /\ now = e.t
               /\ Query(e.q, e.up)
               /\ last'.fromCache = ~e.upstream
               /\ last'.served = e.served
+              /\ e.upstream => /\ FlagsOf(e.fwd) = FlagsOf(last'.asked)
+                               /\ last'.asked.nq >= 1 =>
+                                     /\ e.fwd.name = last'.asked.name
+                                     /\ e.fwd.qtype = last'.asked.qtype
 
 TNext == T_Tick \/ T_Query
 TSpec == TInit /\ [][TNext]_tvars
